@@ -177,8 +177,14 @@ func (h *Hub) CancelPairingWithSKI(ski string) {
 	}
 
 	service := h.ServiceForSKI(ski)
+
+	// a handshake state update of a concurrently ending connection must not get in between
+	// resetting the state and reporting it, or the reported state is not the kept one
+	h.muxPairingUpdate.Lock()
+	defer h.muxPairingUpdate.Unlock()
+
 	service.ConnectionStateDetail().SetState(api.ConnectionStateNone)
 	service.SetTrusted(false)
 
-	h.reportPairingDetailUpdate(ski, service.ConnectionStateDetail())
+	h.reportPairingDetailUpdateLocked(ski, service.ConnectionStateDetail())
 }
